@@ -8,10 +8,15 @@ TIE = ("hand-written two-layer model (FcpptModel/Model/C07.lean: checked heap + 
        "correspondence: real raw_vector/buffer templates vs std::vector (inside the harness) vs the Lean model")
 RULE = ("one history = `reset`, a constructor, then up to 30 (quick) / 60 (thorough) operations over 3 vector and 2 buffer "
         "registers; after every operation: returned iterator offset, contents by iteration, size, capacity>=size, "
-        "'reallocated iff needed', number of live allocations (ledger allocator), agreement with std::vector. "
-        "Systematic batch: every constructor-produced size 0..4 x spare capacity 0..3 x every single operation with every "
-        "valid position / count / aliased index. An op is non-trivial if it is executed (not `invalid`); distinct = "
-        "distinct (op, result) pairs.")
+        "'reallocated iff needed' (reok), capacity never shrinks / reserve(n) gives >= n / shrink_to_fit gives == size (cpok), "
+        "a capacity that changes at least doubles (geo), buffer storage moved iff the write area did not fit (mv), number of live "
+        "allocations (ledger allocator), agreement with std::vector; `dump` of all registers at the end of every history. "
+        "Systematic batches: every constructor-produced size 0..3/4 x spare capacity x every single operation with every valid "
+        "position / count / aliased index / iterator kind / accessor / own sub-range; special first step (moved-from, swapped away, "
+        "emptied, shrunk, self-assigned, converted buffer) x every second operation and save-mutate-restore; every pair of short "
+        "vectors x capacity state for the six comparison operators; every buffer program of 2/3 steps; dynamic_array sizes 0..5. "
+        "An op is non-trivial if it is executed (not `invalid`); distinct = distinct (op, result) pairs. "
+        "Besides the diff: API inventory (every public member of the anchored classes must be listed with the op reaching it).")
 ASSUMPTIONS = [
     "element type int (trivial); an argument `T const&` is either a value living elsewhere or a reference to an element of the same vector",
     "std::allocator/operator new: allocate(n) returns a fresh block of n cells disjoint from all live blocks (also for n = 0)",
@@ -19,6 +24,8 @@ ASSUMPTIONS = [
     "growth policy is a parameter g with n <= g n cap (the driver uses the code's max(n, 2*cap); capacities are compared only as cap >= size and 'reallocated iff needed')",
     "move assignment: the standard leaves the source unspecified; the specification fixes it to the target's old contents (swap)",
     "std::istream::read(count) is good iff count characters were available",
+    "insert(pos, first, last) with [first,last) inside the vector itself is outside std::vector's contract; it is specified (and proved) "
+    "only where raw_vector's answer does not depend on the capacity (last <= pos); elsewhere model and code are compared without a specification",
 ]
 TRUSTED = ["harness/c07.cpp (ledger allocator, std::vector reference, poke of spare capacity) and the line protocol",
            "g++ 12 + ASan/UBSan/LeakSanitizer as witness for the memory layer of the real code"]
@@ -108,15 +115,22 @@ class Sim:
             c = rng.choice([0, 1, 1, 2, 3, 5, 8])
             self.grow(r, c, "insn")
             return f"insn {r} {p} {c} {s}"
+        if k < 40 and n > 0:
+            # a range of the vector itself, mostly in front of the insertion point
+            p = self.pos(r)
+            b = rng.below((p if rng.chance(4, 5) else n) + 1)
+            a = rng.below(b + 1)
+            self.grow(r, b - a, "insr-self" + ("" if b <= p else "-nospec"))
+            return f"insr {r} {p} self {a} {b}"
         if k < 50:
             p = self.pos(r)
             c = rng.choice([0, 1, 2, 3, 4, 6, 9])
-            f = rng.choice(["fwd", "inp"])
+            f = rng.choice(["fwd", "inp", "fwd", "inp", "ptr", "fl", "bidi"])
             xs = self.vals(c)
             if c == 0:
                 self.count("insr-" + f, "empty")
-            elif f == "fwd":
-                self.grow(r, c, "insr-fwd")
+            elif f != "inp":
+                self.grow(r, c, "insr-" + f)
             else:
                 for _ in range(c):
                     self.grow(r, 1, "insr-inp")
@@ -172,33 +186,39 @@ class Sim:
             self.count("swap", "self" if r == s else "x")
             return f"swap {r} {s}"
         if k < 91:
-            s = (r + 1 + rng.below(NV - 1)) % NV
+            s = rng.below(NV)
             self.sz[r], self.sz[s] = self.sz[s], self.sz[r]
             self.cap[r], self.cap[s] = self.cap[s], self.cap[r]
-            self.count("massign", "x")
+            self.count("massign", "self" if r == s else "x")
             return f"massign {r} {s}"
-        if k < 95:
+        if k < 94:
             return self.ctor(r)
-        if k < 97:
+        if k < 96:
             return f"cmp {r} {rng.below(NV)}"
+        if k < 98 and n > 0:
+            how = rng.choice(["idx", "it", "data", "front", "back"])
+            self.count("set", how)
+            i = 0 if how in ("front", "back") else (rng.below(n) if rng.chance(2, 3) else rng.choice([0, n - 1]))
+            return f"set {r} {how} {i} {self.val()}"
         return f"obs {r}"
 
     def ctor(self, r, kind=None):
         rng = self.rng
         kind = kind if kind is not None else rng.below(7)
         self.count("ctor", str(kind))
+        al = "a" if rng.chance(1, 4) else ""
         if kind == 0:
             self.sz[r] = self.cap[r] = 0
-            return f"ctor {r} default"
+            return f"ctor {r} {al}default"
         if kind == 1:
             n = rng.choice([0, 1, 2, 3, 5, 8])
             self.sz[r] = self.cap[r] = n
-            return f"ctor {r} count {n} {self.val()}"
+            return f"ctor {r} {al}count {n} {self.val()}"
         if kind in (2, 3):
             n = rng.choice([0, 1, 2, 3, 4, 7])
-            f = "fwd" if kind == 2 else "inp"
+            f = rng.choice(["fwd", "fwd", "ptr", "fl", "bidi"]) if kind == 2 else "inp"
             self.sz[r] = n
-            if f == "fwd":
+            if f != "inp":
                 self.cap[r] = n
             else:
                 c = 0
@@ -206,11 +226,11 @@ class Sim:
                     if i > c:
                         c = max(i, 2 * c)
                 self.cap[r] = c
-            return f"ctor {r} range {f} {self.lst(self.vals(n))}"
+            return f"ctor {r} {al}range {f} {self.lst(self.vals(n))}"
         if kind == 4:
             n = rng.choice([0, 1, 2, 3, 4, 5, 6])
             self.sz[r] = self.cap[r] = n
-            return f"ctor {r} il {self.lst(self.vals(n))}"
+            return f"ctor {r} {al}il {self.lst(self.vals(n))}"
         if kind == 5:
             s = (r + 1 + rng.below(NV - 1)) % NV
             self.sz[r], self.cap[r] = self.sz[s], self.cap[s]
@@ -237,7 +257,7 @@ class Sim:
             n = rng.choice([0, 1, 2, 4, 7])
             self.brd[b], self.bws[b], self.bcap[b] = 0, n, n
             self.count("bctor", "x")
-            return f"bctor {b} {n}"
+            return f"b{'a' if rng.chance(1, 4) else ''}ctor {b} {n}"
         if k < 30:
             n = rng.choice([0, 1, 2, 3, 5, 9, self.bws[b]])
             self.bresize_sim(b, n)
@@ -268,24 +288,38 @@ class Sim:
             self.bws[b] = n - c
             self.count("bappendopt", "some")
             return f"bappendopt {b} {n} {self.lst(self.vals(c))}"
-        if k < 82:
+        if k < 81:
             n = rng.choice([0, 1, 3, 5])
             c = rng.below(n + 1)
             self.brd[b], self.bws[b], self.bcap[b] = c, n - c, n
             self.count("bread", "x")
             return f"bread {b} {n} {self.lst(self.vals(c))}"
+        if k < 85:
+            n = rng.choice([0, 1, 3, 5])
+            if rng.chance(1, 3):
+                self.brd[b] = self.bws[b] = self.bcap[b] = 0
+                self.count("breadopt", "none")
+                return f"breadopt {b} {n} none"
+            c = rng.below(n + 1)
+            self.brd[b], self.bws[b], self.bcap[b] = c, n - c, n
+            self.count("breadopt", "some")
+            return f"breadopt {b} {n} {self.lst(self.vals(c))}"
+        if k < 87:
+            return f"bobs {b}"
         c = (b + 1) % NB
-        if k < 88:
+        if k >= 89 and rng.chance(1, 5):
+            c = b       # self-swap / self-move-assignment
+        if k < 89:
             self.brd[b], self.bws[b], self.bcap[b] = self.brd[c], self.bws[c], self.bcap[c]
             self.brd[c] = self.bws[c] = self.bcap[c] = 0
             self.count("bmovector", "x")
             return f"bmovector {b} {c}"
         for a in (self.brd, self.bws, self.bcap):
             a[b], a[c] = a[c], a[b]
-        if k < 94:
-            self.count("bswap", "x")
+        if k < 95:
+            self.count("bswap", "self" if b == c else "x")
             return f"bswap {b} {c}"
-        self.count("bmassign", "x")
+        self.count("bmassign", "self" if b == c else "x")
         return f"bmassign {b} {c}"
 
 
@@ -300,6 +334,7 @@ def histories(rng, count, length, stats, buffer_share):
             o = sim.bop() if rng.chance(buffer_share, 100) else sim.vop()
             if o:
                 ops.append(o)
+        ops.append("dump")
         ops.append("end")
     ops.append("reset")
     return ops
@@ -325,19 +360,65 @@ def buffer_histories(rng, count, length, stats):
             o = sim.vop() if rng.chance(3, 4) else sim.bop()
             if o:
                 ops.append(o)
+        ops.append("dump")
         ops.append("end")
     ops.append("reset")
     return ops
 
 
-def systematic(sizes, extras, thorough):
-    """every single operation with every valid position/count/alias from every small (size, spare capacity) state"""
-    ops = []
+KINDS = ("fwd", "inp", "ptr", "fl", "bidi")
+
+
+def single_cases(n, r=0, full=True):
+    """every single operation on register r holding n elements: every valid position / count / aliased index /
+    iterator kind / accessor; full=False: a reduced set (used as the second step of two-step sequences)"""
+    o = (r + 1) % NV
+    srcs = ["v99"] + [f"s{i}" for i in range(n)]
+    cases = []
+    for s in srcs:
+        cases.append(f"push {r} {s}")
+        for p in range(n + 1):
+            cases.append(f"ins1 {r} {p} {s}")
+            for c in ((0, 1, 2, 3) if full else (0, 2)):
+                cases.append(f"insn {r} {p} {c} {s}")
+        for m in range(n + 4) if full else (0, n, n + 2):
+            cases.append(f"resize {r} {m} {s}")
+    for p in range(n + 1):
+        for xs in ("-", "70", "70,71,72") if full else ("70,71",):
+            for k in KINDS if full else ("fwd", "inp"):
+                cases.append(f"insr {r} {p} {k} {xs}")
+        # a range of the vector itself: in front of the insertion point (specified), and elsewhere (model vs code only)
+        for a in range(n + 1):
+            for b in range(a, n + 1):
+                if full or b <= p:
+                    cases.append(f"insr {r} {p} self {a} {b}")
+        if full:
+            # long enough for the single-pass path to reallocate more than once
+            for k in ("fwd", "inp"):
+                cases.append(f"insr {r} {p} {k} 70,71,72,73,74,75")
+    for p in range(n):
+        cases.append(f"era1 {r} {p}")
+        for how in ("idx", "it", "data"):
+            cases.append(f"set {r} {how} {p} 88")
+    cases += [f"set {r} front 0 88", f"set {r} back 0 88"]
+    for a in range(n + 1):
+        for b in range(a, n + 1):
+            cases.append(f"erar {r} {a} {b}")
+    cases += [f"ctor {r} adefault", f"ctor {r} acount 2 5", f"ctor {r} arange inp 5,6", f"ctor {r} arange fl 5,6", f"ctor {r} ail 5,6,7",
+              f"ctor {r} ail -", f"ctor {r} default", f"ctor {r} count 0 5", f"ctor {r} range bidi -"]
+    cases += [f"pop {r}", f"clear {r}", f"shrink {r}", f"reserve {r} {n + 5}", f"reserve {r} {n}", f"reserve {r} 0",
+              f"ctor {o} move {r}", f"swap {r} {o}", f"swap {o} {r}", f"massign {o} {r}", f"massign {r} {o}",
+              f"swap {r} {r}", f"massign {r} {r}", f"cmp {r} {r}", f"cmp {r} {o}"]
+    return cases
+
+
+def state_prefixes(sizes, extras, ways):
+    """(prefix ops, n): register 0 holds 10..10+n-1, reached in different ways, with different spare capacity"""
     for n in sizes:
         base = list(range(10, 10 + n))
         lst = ",".join(map(str, base)) if base else "-"
         for extra in extras:
-            for ck in range(3):
+            for ck in ways:
                 pre = ["reset"]
                 if ck == 0:
                     pre.append(f"ctor 0 il {lst}")
@@ -352,31 +433,153 @@ def systematic(sizes, extras, thorough):
                         pre.append(f"push 0 v{10 + i}")
                 if extra is not None:
                     pre.append(f"reserve 0 {n + extra}")
-                if ck != 0 and not thorough:
-                    continue
-                srcs = ["v99"] + [f"s{i}" for i in range(n)]
-                cases = []
-                for s in srcs:
-                    cases.append(f"push 0 {s}")
-                    for p in range(n + 1):
-                        cases.append(f"ins1 0 {p} {s}")
-                        for c in (0, 1, 2, 3):
-                            cases.append(f"insn 0 {p} {c} {s}")
-                    for m in range(n + 4):
-                        cases.append(f"resize 0 {m} {s}")
-                for p in range(n + 1):
-                    for xs in ("-", "70", "70,71,72"):
-                        cases.append(f"insr 0 {p} fwd {xs}")
-                        cases.append(f"insr 0 {p} inp {xs}")
-                for p in range(n):
-                    cases.append(f"era1 0 {p}")
-                for a in range(n + 1):
-                    for b in range(a, n + 1):
-                        cases.append(f"erar 0 {a} {b}")
-                cases += ["pop 0", "clear 0", "shrink 0", f"reserve 0 {n + 5}", "ctor 1 move 0", "swap 0 1", "massign 1 0"]
-                for c in cases:
-                    ops += pre + [c, "obs 0", "push 0 v55", "end"]
+                yield pre, n
+
+
+def systematic(sizes, extras, thorough):
+    """every single operation with every valid position/count/alias from every small (size, spare capacity) state"""
+    ops = []
+    for pre, n in state_prefixes(sizes, extras, (0, 1, 2)):
+        for c in single_cases(n):
+            ops += pre + [c, "obs 0", "push 0 v55", "obs 0", "end"]
     ops.append("reset")
+    return ops
+
+
+def first_steps(n):
+    """(ops, size of register 0 afterwards, register that now holds the old contents or None): operations that leave
+    register 0 in a special state — moved-from, swapped with a null vector, emptied, shrunk, self-assigned"""
+    yield ["ctor 1 move 0"], 0, 1
+    yield ["swap 0 1"], 0, 1
+    yield ["massign 1 0"], 0, 1
+    yield ["clear 0"], 0, None
+    yield ["resize 0 0 v1"], 0, None
+    yield [f"erar 0 0 {n}"], 0, None
+    yield ["shrink 0"], n, None
+    yield ["clear 0", "shrink 0"], 0, None
+    yield [f"reserve 0 {n + 2}"], n, None
+    yield ["massign 0 0"], n, None
+    yield ["swap 0 0"], n, None
+    yield ["ctor 0 buf 0"], 0, None                      # to_raw_vector of a released buffer
+    yield ["bctor 0 2", "bfill 0 41", "ctor 0 buf 0"], 1, None
+    if n > 0:
+        yield ["pop 0"], n - 1, None
+        yield ["set 0 back 0 77"], n, None
+
+
+def two_step(sizes, extras, thorough):
+    """first step (special state) x every second operation; and save - mutate - restore through swap / move"""
+    ops = []
+    for pre, n in state_prefixes(sizes, extras, (0, 2)):
+        for first, n1, other in first_steps(n):
+            for c in single_cases(n1, 0, full=thorough):
+                ops += pre + first + [c, "obs 0", "push 0 v55", "obs 0", "obs 1", "end"]
+            if other is not None:
+                # the old contents now live in another register: mutate them there, bring them back
+                for c in single_cases(n, other, full=False):
+                    ops += pre + first + [c, f"swap 0 {other}", "obs 0", f"massign {other} 0", "obs 0", f"obs {other}",
+                                          "push 0 v55", "end"]
+    ops.append("reset")
+    return ops
+
+
+def buffer_systematic(depth, thorough):
+    """every buffer program of `depth` steps over a small step alphabet from every initial write size, then observation,
+    conversion, use of the vector, conversion of the released buffer"""
+    ops = []
+    sizes = (0, 1, 2, 3)
+
+    def steps(rd, ws, counter):
+        """(op text, new rd, new ws) for buffer 0"""
+        res = []
+        for k in sorted({0, 1, ws} & set(range(ws + 1))):
+            res.append((f"bfill 0 {lstr(counter, k)}", rd + k, ws - k))
+        for m in (0, 1, 2, 4) if thorough else (0, 1, 3):
+            res.append((f"bresize 0 {m}", rd, m))
+        for m in (0, 1, 3):
+            for j in sorted({0, 1, m} & set(range(m + 1))):
+                res.append((f"bappend 0 {m} {lstr(counter, j)}", rd + j, m - j))
+                res.append((f"bappendopt 0 {m} {lstr(counter, j)}", rd + j, m - j))
+            res.append((f"bappendopt 0 {m} none", rd, m))
+        res.append(("bswap 0 0", rd, ws))
+        res.append(("bmassign 0 0", rd, ws))
+        res.append(("bswap 0 1|bswap 1 0", rd, ws))              # there and back
+        res.append(("bmovector 1 0|bmassign 0 1", rd, ws))        # out and in again
+        res.append(("bmovector 1 0|bswap 0 1", rd, ws))
+        return res
+
+    def lstr(counter, k):
+        return ",".join(str(counter + i) for i in range(k)) if k else "-"
+
+    def rec(prefix, rd, ws, d):
+        if d == 0:
+            ops.extend(["reset"] + prefix + ["bobs 0", "ctor 0 buf 0", "bobs 0", "obs 0", "push 0 v55", "shrink 0", "ctor 1 buf 0",
+                                             "obs 1", "bresize 0 1", "bfill 0 5", "ctor 2 buf 0", "obs 2", "end"])
+            return
+        for text, rd2, ws2 in steps(rd, ws, 20 + 10 * d):
+            rec(prefix + text.split("|"), rd2, ws2, d - 1)
+
+    for n in sizes:
+        for kind in ("bctor", "bread", "breadopt"):
+            if kind == "bctor":
+                rec([f"bctor 0 {n}"], 0, n, depth)
+            elif kind == "bread":
+                for j in sorted({0, n}):
+                    rec([f"bread 0 {n} {lstr(60, j)}"], j, n - j, depth - 1)
+            else:
+                for j in sorted({0, n}):
+                    rec([f"breadopt 0 {n} {lstr(60, j)}"], j, n - j, depth - 1)
+                rec([f"breadopt 0 {n} none"], 0, 0, depth - 1)
+    ops.append("reset")
+    return ops
+
+
+def cmp_states(alphabet, maxlen):
+    """every pair of short sequences, each reached in three ways (exact capacity, a stale element behind the end, spare capacity)"""
+    import itertools
+    seqs = [list(t) for n in range(0, maxlen + 1) for t in itertools.product(alphabet, repeat=n)]
+
+    def build(r, xs, way):
+        l = ",".join(map(str, xs)) if xs else "-"
+        if way == 0:
+            return [f"ctor {r} il {l}"]
+        if way == 1:
+            # one more element (the largest / smallest value alternately) that is popped again: it stays behind the end
+            return [f"ctor {r} il {','.join(map(str, xs + [9 if len(xs) % 2 else -9]))}", f"pop {r}"]
+        return [f"ctor {r} il {l}", f"reserve {r} {len(xs) + 3}"]
+
+    ops = []
+    for a in seqs:
+        for b in seqs:
+            for wa in range(3):
+                for wb in range(3):
+                    ops += ["reset"] + build(0, a, wa) + build(1, b, wb) + ["cmp 0 1", "cmp 1 0", "cmp 0 0"]
+    # longer operands: equal up to position k and then smaller / greater / ended, for every k
+    for n in range(0, 7):
+        a = [5 + (i % 2) for i in range(n)]
+        others = [a[:k] for k in range(n)] + [a + [5]]
+        for k in range(n):
+            others.append(a[:k] + [a[k] - 1] + a[k + 1:])
+            others.append(a[:k] + [a[k] + 1] + a[k + 1:])
+            others.append(a[:k] + [a[k] + 1])
+        for b in others + [a]:
+            ops += ["reset"] + build(0, a, 0) + build(1, b, 1 if len(b) % 2 else 2) + ["cmp 0 1", "cmp 1 0"]
+    # extreme values (a comparison by subtraction or through an unsigned type goes wrong only here)
+    ext = [-2147483648, -1, 0, 1, 2147483647]
+    eseqs = [[]] + [[x] for x in ext] + [[x, y] for x in (ext[0], ext[2], ext[4]) for y in (ext[0], ext[4])]
+    for a in eseqs:
+        for b in eseqs:
+            ops += ["reset"] + build(0, a, 0) + build(1, b, 0) + ["cmp 0 1"]
+    ops.append("reset")
+    return ops
+
+
+def dynarr_ops():
+    ops = []
+    for n in range(0, 6):
+        for j in range(0, n + 1):
+            ops.append(f"dynarr {n} " + (",".join(str(30 + i) for i in range(j)) if j else "-"))
+    ops.append("dynarr 300 " + ",".join(str(i) for i in range(300)))
     return ops
 
 
@@ -385,6 +588,9 @@ def readchars_ops():
     for ln in range(0, 7):
         xs = ",".join(str(97 + i) for i in range(ln)) if ln else "-"
         for count in range(0, 9):
+            ops.append(f"readchars {count} {xs}")
+    for xs in ("0,255,128", "10,13,0,0", "255"):
+        for count in range(0, 5):
             ops.append(f"readchars {count} {xs}")
     ops.append("readchars 300 " + ",".join(str(32 + i % 90) for i in range(300)))
     ops.append("readchars 301 " + ",".join(str(32 + i % 90) for i in range(300)))
@@ -401,38 +607,193 @@ def batches(rng, tier):
     sys_ops = systematic(range(0, 5) if thorough else range(0, 4), [None, 0, 1, 2, 3] if thorough else [None, 1, 3], thorough)
     yield Batch("systematic-single-ops", sys_ops, kind="history", exhaustive=True,
                 note="all positions/counts/aliases for sizes 0..%d x spare capacity" % (4 if thorough else 3))
-    # comparison.hpp on every pair of short vectors (equal prefixes, different lengths, empty, one differing element at each place)
-    import itertools
-    seqs = [list(t) for n in range(0, 4 if thorough else 3) for t in itertools.product([0, 1, 2] if thorough else [0, 1], repeat=n)]
-    cmp_ops = []
-    for a in seqs:
-        for b in seqs:
-            cmp_ops += ["reset",
-                        "ctor 0 il " + (",".join(map(str, a)) if a else "-"),
-                        "ctor 1 il " + (",".join(map(str, b)) if b else "-"),
-                        "cmp 0 1", "cmp 1 0", "cmp 0 0"]
-    yield Batch("cmp-all-pairs", cmp_ops, kind="history", exhaustive=True,
-                note="== != < > <= >= on every pair of vectors over a small alphabet up to length %d" % (3 if thorough else 2))
+    yield Batch("two-step-sequences", two_step(range(0, 4) if thorough else range(0, 3), [None, 0, 2] if thorough else [None, 2], thorough),
+                kind="history", exhaustive=True,
+                note="special first step (moved-from, swapped away, emptied, shrunk, self-assigned, converted buffer) x every "
+                     "second operation; save-mutate-restore through swap/move")
+    yield Batch("cmp-all-pairs", cmp_states([-1, 0, 2] if thorough else [-1, 1], 3), kind="history", exhaustive=True,
+                note="== != < > <= >= on every pair of vectors over a small alphabet up to length %d, each operand with exact "
+                     "capacity / a stale element behind the end / spare capacity; prefixes / one differing position up to length 6; "
+                     "extreme values" % 3)
+    yield Batch("buffer-systematic", buffer_systematic(3 if thorough else 2, thorough), kind="history", exhaustive=True,
+                note="every buffer program of %d steps from every initial write size 0..3 (ctor / read_from / read_from_opt), "
+                     "observed through operator[], converted, the released buffer converted again" % (3 if thorough else 2))
+    yield Batch("dynarr", dynarr_ops(), exhaustive=True, note="dynamic_array: every size 0..5 x stored prefix")
     stats = {}
-    ops = histories(rng.fork("vec"), 30000 if thorough else 6000, 60 if thorough else 30, stats, 8)
+    ops = histories(rng.fork("vec"), 80000 if thorough else 6000, 60 if thorough else 30, stats, 8)
     yield Batch("vector-histories", ops, kind="history", note="random histories; generator distribution: " + fmt_stats(stats))
     stats = {}
-    ops = buffer_histories(rng.fork("buf"), 15000 if thorough else 3000, 14 if thorough else 10, stats)
+    ops = buffer_histories(rng.fork("buf"), 40000 if thorough else 3000, 14 if thorough else 10, stats)
     yield Batch("buffer-histories", ops, kind="history", note="buffer histories ending in to_raw_vector; distribution: " + fmt_stats(stats))
     stats = {}
-    ops = histories(rng.fork("long"), 3000 if thorough else 600, 120 if thorough else 60, stats, 30)
+    ops = histories(rng.fork("long"), 8000 if thorough else 600, 120 if thorough else 60, stats, 30)
     yield Batch("mixed-long-histories", ops, kind="history", note="longer mixed vector/buffer histories; distribution: " + fmt_stats(stats))
 
 
+# ---------------------------------------------------------------------------------------------------------------------
+# API inventory: every public member of the anchored classes and the operation of the harness that reaches it.  A public
+# member (or a header in the two directories) that is not listed here is not observed by the correspondence at all — the
+# run reports that instead of staying silent about it.
+API = {
+    "raw_vector/object_decl.hpp:object": {
+        "iterator begin() noexcept": "ins1/insn/insr/era1/erar/set it, obs",
+        "const_iterator begin() const noexcept": "contents after every op, obs, cmp",
+        "iterator end() noexcept": "obs",
+        "const_iterator end() const noexcept": "contents after every op, obs, cmp",
+        "reference operator[](size_type) noexcept": "set idx, aliased SRC s<i>, obs",
+        "const_reference operator[](size_type) const noexcept": "obs",
+        "reference front() noexcept": "set front, obs",
+        "const_reference front() const noexcept": "obs",
+        "reference back() noexcept": "set back, obs",
+        "const_reference back() const noexcept": "obs",
+        "pointer data() noexcept": "set data, poke after every op, obs",
+        "const_pointer data() const noexcept": "obs, reok",
+        "pointer data_end() noexcept": "poke after every op, obs",
+        "const_pointer data_end() const noexcept": "obs",
+        "object()": "ctor default",
+        "explicit object(A const &)": "ctor adefault",
+        "object(size_type sz, T const &value)": "ctor count",
+        "object(size_type sz, T const &value, A const &)": "ctor acount",
+        "template <typename In> object(In beg, In end)": "ctor range fwd|ptr|fl|bidi|inp",
+        "template <typename In> object(In beg, In end, A const &)": "ctor arange",
+        "explicit object(fcppt::container::raw_vector::rep<A> const &) noexcept": "ctor buf (to_raw_vector)",
+        "object(std::initializer_list<value_type>)": "ctor il",
+        "object(std::initializer_list<value_type>, A const &)": "ctor ail",
+        "object(object &&) noexcept": "ctor move",
+        "~object() noexcept": "end, every ctor",
+        "object &operator=(object &&) noexcept": "massign (also r = r)",
+        "void push_back(T const &)": "push (lvalue element / prvalue)",
+        "void pop_back() noexcept": "pop",
+        "void clear() noexcept": "clear",
+        "size_type size() const noexcept": "every op",
+        "bool empty() const noexcept": "obs",
+        "size_type capacity() const noexcept": "every op (capok, reok, cpok, geo)",
+        "void swap(object &) noexcept": "swap r s with r >= s",
+        "void resize(size_type sz, T const &value)": "resize",
+        "void reserve(size_type sz)": "reserve",
+        "allocator_type get_allocator() const": "obs",
+        "iterator insert(iterator position, T const &t)": "ins1",
+        "void insert(iterator position, size_type sz, T const &value)": "insn",
+        "template <typename In> void insert(iterator position, In beg, In end)": "insr (5 iterator kinds, own range)",
+        "iterator erase(iterator position) noexcept": "era1",
+        "iterator erase(iterator first, iterator last) noexcept": "erar",
+        "void shrink_to_fit()": "shrink",
+    },
+    "raw_vector/rep_decl.hpp:rep": {
+        "rep(A const &, pointer first, pointer last, pointer cap) noexcept": "ctor buf (buffer::release)",
+        "A const &alloc() const noexcept": "ctor buf", "pointer first() const noexcept": "ctor buf",
+        "pointer last() const noexcept": "ctor buf", "pointer cap() const noexcept": "ctor buf",
+    },
+    "buffer/object_decl.hpp:object": {
+        "explicit object(size_type write_sz)": "bctor", "object(size_type write_sz, A)": "bactor",
+        "object(object &&) noexcept": "bmovector, bappend, bappendopt", "object &operator=(object &&) noexcept": "bmassign (also b = b), bappend",
+        "~object() noexcept": "end, bctor, bread", "const_iterator begin() const noexcept": "contents after every op, bobs",
+        "const_iterator end() const noexcept": "contents after every op, bobs",
+        "const_reference operator[](size_type) const noexcept": "bobs",
+        "const_pointer read_data() const noexcept": "bobs, mv", "const_pointer read_data_end() const noexcept": "capok after every op, bobs",
+        "pointer write_data() noexcept": "bfill, poke after every op", "pointer write_data_end() noexcept": "poke after every op, capok",
+        "size_type read_size() const noexcept": "every op", "size_type write_size() const noexcept": "every op",
+        "void written(size_type sz) noexcept": "bfill, bappend, bappendopt, bread, breadopt",
+        "void resize_write_area(size_type sz)": "bresize, bappend, bappendopt, bread, breadopt",
+        "allocator_type get_allocator() const": "bobs, ctor buf", "void swap(object &) noexcept": "bswap b c with b >= c, bmassign",
+        "fcppt::container::raw_vector::rep<A> release() noexcept": "ctor buf",
+    },
+    "dynamic_array_decl.hpp:dynamic_array": {
+        "explicit dynamic_array(size_type)": "dynarr (even n)", "dynamic_array(size_type, A)": "dynarr (odd n)",
+        "~dynamic_array() noexcept": "dynarr", "pointer data() noexcept": "dynarr", "const_pointer data() const noexcept": "dynarr",
+        "pointer data_end() noexcept": "dynarr", "const_pointer data_end() const noexcept": "dynarr", "size_type size() const noexcept": "dynarr",
+    },
+}
+# headers of the two directories: free functions / operators and the op that reaches them
+HEADERS = {
+    "raw_vector": {"comparison.hpp": "cmp (== != < > <= >=)", "object.hpp": "-", "object_decl.hpp": "-", "object_fwd.hpp": "-",
+                   "object_impl.hpp": "swap r s with r < s (free swap)", "rep_decl.hpp": "-", "rep_fwd.hpp": "-", "rep_impl.hpp": "-"},
+    "buffer": {"append_from.hpp": "bappend", "append_from_opt.hpp": "bappendopt", "object.hpp": "-", "object_decl.hpp": "-",
+               "object_fwd.hpp": "-", "object_impl.hpp": "bswap b c with b < c (free swap)", "read_from.hpp": "bread",
+               "read_from_opt.hpp": "breadopt, readchars", "to_raw_vector.hpp": "ctor buf, readchars"},
+}
+
+
+def public_decls(path, cls):
+    """normalised declarations in the public sections of `class cls` (comments, nested classes and bodies removed)"""
+    import re
+    s = open(path).read()
+    s = re.sub(r"/\*.*?\*/", "", s, flags=re.S)
+    s = re.sub(r"//[^\n]*", "", s)
+    i = s.index("{", s.index("class " + cls))
+    depth, j = 0, i
+    while True:
+        if s[j] == "{":
+            depth += 1
+        elif s[j] == "}":
+            depth -= 1
+            if depth == 0:
+                break
+        j += 1
+    out, depth = [], 0
+    for ch in s[i + 1:j]:
+        if ch == "{":
+            depth += 1
+        elif ch == "}":
+            depth -= 1
+        elif depth == 0:
+            out.append(ch)
+    pub, access = [], "private"
+    for part in re.split(r"\b(public|private|protected)\s*:", "".join(out)):
+        if part in ("public", "private", "protected"):
+            access = part
+        elif access == "public":
+            pub.append(part)
+    decls = []
+    for st in ";".join(pub).split(";"):
+        st = " ".join(st.replace("[[nodiscard]]", "").split())
+        if "(" in st and not st.startswith(("static_assert", "FCPPT_", "using ")):
+            decls.append(st)
+    return decls
+
+
+def extra_checks(binp, rng, tier, ev):
+    """API inventory against the current tree (see API above)"""
+    import os
+    from vlib import paths
+    base = os.path.join(paths.REPO, "libs", "core", "include", "fcppt", "container")
+    unknown, seen = [], 0
+    for key, known in API.items():
+        rel, cls = key.split(":")
+        try:
+            decls = public_decls(os.path.join(base, rel), cls)
+        except (OSError, ValueError) as e:
+            unknown.append(f"{rel}: cannot be read ({e})")
+            continue
+        seen += len(decls)
+        unknown += [f"{rel}: `{d}`" for d in decls if d not in known]
+    for d, known in HEADERS.items():
+        try:
+            unknown += [f"{d}/{f}" for f in sorted(os.listdir(os.path.join(base, d))) if f not in known]
+        except OSError as e:
+            unknown.append(f"{d}: cannot be listed ({e})")
+    ev.setdefault("coverage", {})["api_inventory"] = {"public_members": seen, "not_harnessed": unknown}
+    if not unknown:
+        return []
+    return [{"kind": "broken-correspondence",
+             "what": "public API of the anchored classes that no operation of the harness reaches (add it to harness, driver, "
+                     "model and props/c07.py:API): " + "; ".join(unknown)}]
+
+
 MANIFEST = {
-    "level_text": ("Machine-checked proof (Lean 4) over an executable two-layer model of raw_vector and buffer (bounds- and "
-                   "initialisation-checked heap with an allocation ledger; pointer triples; every member mirrored path by path, "
+    "level_text": ("Machine-checked proof (Lean 4) over an executable two-layer model of raw_vector, buffer and dynamic_array (bounds- and "
+                   "initialisation-checked heap with an allocation ledger; pointer triples; every public member mirrored path by path, "
                    "growth policy a parameter): for all histories of valid operations from every constructor the model never faults "
                    "(no access outside an allocation, no uninitialised read, no double free, no leak once the destructors ran), "
-                   "capacity >= size, and contents and returned iterator offsets are those of the List specification of std::vector, "
-                   "including aliased arguments; a buffer hands exactly its read area to the raw_vector it is converted into. "
+                   "capacity >= size, contents, returned iterator offsets and returned references (operator[], front, back, stores through "
+                   "them) are those of the List specification of std::vector, including aliased arguments, self-swap, self-move-assignment "
+                   "and own sub-ranges in front of the insertion point; storage is kept iff the new size fits the old capacity, the "
+                   "capacity never shrinks except by shrink_to_fit (== size), reserve(n) gives >= n, growth at least doubles; the six "
+                   "comparison operators are list equality / lexicographic order; a buffer hands exactly its read area to the raw_vector "
+                   "it is converted into; read_chars equals the stream specification. "
                    "The model is tied to the code by a three-way differential correspondence (real templates vs std::vector vs model) "
-                   "over systematic single-operation cases and random histories up to length 60 under ASan/UBSan/LSan with a ledger allocator."),
+                   "over systematic single-operation, two-step, comparison and buffer-program batches and random histories up to length 60 "
+                   "under ASan/UBSan/LSan with a ledger allocator, plus an inventory of the public API against the operations of the harness."),
     "level_note": ("Trusted: Lean kernel + propext/Classical.choice/Quot.sound; fidelity of the hand-written model outside the "
                    "exercised inputs; harness, ledger allocator and line protocol; the standard algorithms' copy order. "
                    "No sorry/axiom/native_decide."),
